@@ -6,7 +6,7 @@
    Indexes are < 2^31-64 (IDXMAX) where stated. *)
 From Coq Require Import List NArith ZArith Bool Lia.
 From HV Require Import Gen.Tables Base.BSet Bitmap.BitmapModel Bitmap.BitmapSpec
-  Bitmap.BitmapBase Bitmap.BitmapOps Bitmap.BitmapQueries.
+  Bitmap.BitmapBase Bitmap.BitmapOps Bitmap.BitmapQueries Bitmap.BitmapScan Bitmap.BitmapCompare.
 Import ListNotations.
 Local Open Scope N_scope.
 
@@ -126,3 +126,79 @@ Theorem isincluded_spec : forall sub super, wf sub -> wf super ->
   bm_isincluded sub super = sp_isincluded (abs sub) (abs super).
 Proof. exact bm_isincluded_spec. Qed.
 Print Assumptions isincluded_spec.
+
+Theorem iszero_spec : forall r, wf r -> bm_iszero r = sp_iszero (abs r).
+Proof. exact bm_iszero_spec. Qed.
+Print Assumptions iszero_spec.
+Theorem isfull_spec : forall r, wf r -> bm_isfull r = sp_isfull (abs r).
+Proof. exact bm_isfull_spec. Qed.
+Print Assumptions isfull_spec.
+(* first/last: least / greatest member, -1 for the empty set (first), for the empty or an
+   infinitely-set bitmap (last); *_unset: the same on the complement *)
+Theorem first_spec : forall r, wf r -> bm_first r = sp_first (abs r).
+Proof. exact bm_first_spec. Qed.
+Print Assumptions first_spec.
+Theorem first_unset_spec : forall r, wf r -> bm_first_unset r = sp_first_unset (abs r).
+Proof. exact bm_first_unset_spec. Qed.
+Print Assumptions first_unset_spec.
+Theorem last_spec : forall r, wf r -> bm_last r = sp_last (abs r).
+Proof. exact bm_last_spec. Qed.
+Print Assumptions last_spec.
+Theorem last_unset_spec : forall r, wf r -> bm_last_unset r = sp_last_unset (abs r).
+Proof. exact bm_last_unset_spec. Qed.
+Print Assumptions last_unset_spec.
+(* what sp_first / sp_last mean *)
+Theorem first_is_least : forall s k, bs_first s = Some k <-> (mem k s = true /\ forall j, j < k -> mem j s = false).
+Proof. intros s k. split; [apply bs_first_some|intros [M L]; now apply bs_first_unique]. Qed.
+Theorem last_is_greatest : forall s k, bs_last s = Some k <-> (mem k s = true /\ forall j, k < j -> mem j s = false).
+Proof. intros s k. split; [apply bs_last_some|intros [M L]; now apply bs_last_unique]. Qed.
+
+(* compare: exactly -1/0/1, decided by the highest index at which the sets differ; an infinitely
+   set bitmap is above every finite one; the empty set is below everything *)
+Theorem compare_spec : forall r1 r2, wf r1 -> wf r2 -> bm_compare r1 r2 = sp_compare (abs r1) (abs r2).
+Proof. exact bm_compare_spec. Qed.
+Print Assumptions compare_spec.
+Theorem compare_meaning_lt : forall a b d, inf a = inf b -> mem d a = false -> mem d b = true ->
+  (forall j, d < j -> mem j a = mem j b) -> sp_compare a b = (-1)%Z.
+Proof. exact sp_compare_lt. Qed.
+Theorem compare_meaning_gt : forall a b d, inf a = inf b -> mem d a = true -> mem d b = false ->
+  (forall j, d < j -> mem j a = mem j b) -> sp_compare a b = 1%Z.
+Proof. exact sp_compare_gt. Qed.
+Theorem compare_empty_lowest : forall b, b <> bs_empty -> sp_compare bs_empty b = (-1)%Z.
+Proof.
+  intros [f i] Hne. unfold sp_compare, bs_empty; simpl. destruct i; [reflexivity|].
+  unfold cmpN. destruct f; [exfalso; apply Hne; reflexivity|reflexivity].
+Qed.
+
+(* compare_first.  bitmap.c AS FOUND (compare_first_last_line_fixed = false): the documented
+   value is NOT a function of the sets - refuted by a witness - and holds outside the class
+   {empty} x {{64c, 64c+1, ...} : c >= 1}.  The same statements are proved about
+   bm_compare_first_v true (the code with patches/fix-C03-compare-first.diff applied).
+   >>> AFTER THE FIX IS COMMITTED TO /repo: set compare_first_last_line_fixed := true in
+   >>> Bitmap/BitmapModel.v, delete the two theorems between the BEGIN/END AS-FOUND markers and
+   >>> uncomment the theorem between the BEGIN/END FIXED markers. *)
+(* BEGIN AS-FOUND *)
+Theorem compare_first_refuted :
+  exists r1 r2 r1' r2', wf r1 /\ wf r2 /\ wf r1' /\ wf r2' /\ abs r1 = abs r1' /\ abs r2 = abs r2' /\
+    bm_compare_first r1 r2 <> bm_compare_first r1' r2' /\
+    Z.sgn (bm_compare_first r1 r2) <> sp_compare_first (abs r1) (abs r2).
+Proof. exact compare_first_asfound_refuted. Qed.
+Print Assumptions compare_first_refuted.
+Theorem compare_first_partial : forall r1 r2, wf r1 -> wf r2 -> ~ cf_excluded (abs r1) (abs r2) ->
+  Z.sgn (bm_compare_first r1 r2) = sp_compare_first (abs r1) (abs r2).
+Proof. exact compare_first_asfound_partial. Qed.
+Print Assumptions compare_first_partial.
+Example compare_first_partial_nonvacuous : ~ cf_excluded (abs ex_inf3) (abs ex_fin2).
+Proof. intros [[E _]|[E _]]; vm_compute in E; discriminate. Qed.
+(* END AS-FOUND *)
+(* BEGIN FIXED
+Theorem compare_first_spec : forall r1 r2, wf r1 -> wf r2 ->
+  Z.sgn (bm_compare_first r1 r2) = sp_compare_first (abs r1) (abs r2).
+Proof. exact compare_first_fixed_spec. Qed.
+Print Assumptions compare_first_spec.
+END FIXED *)
+(* the fixed code, whatever the flag says *)
+Theorem compare_first_with_fix_spec : forall r1 r2, wf r1 -> wf r2 ->
+  Z.sgn (bm_compare_first_v true r1 r2) = sp_compare_first (abs r1) (abs r2).
+Proof. exact compare_first_fixed_spec. Qed.
+Print Assumptions compare_first_with_fix_spec.
